@@ -3,7 +3,7 @@ import sys
 from harness import common
 from symrun import loader
 loader.install()
-from harness.explore import Explore, make_jobs  # noqa: E402
+from harness.explore import Explore, make_jobs, make_random_jobs  # noqa: E402
 
 CONFIGS = {
     "set-set-2msg": dict(modes=("set", "set"), nmsg=(2, 2)),
@@ -43,7 +43,7 @@ class MsgExplore(Explore):
 
 
 def jobs(tier):
-    return make_jobs(MsgExplore, tier, 2, 3, stepq=8, stept=6)
+    return make_jobs(MsgExplore, tier, 2, 3, stepq=8, stept=6) + make_random_jobs(MsgExplore, tier)
 
 
 ASSUMPTIONS = [
